@@ -15,13 +15,22 @@ META = {
              "rendering), path_no_panic_default (the shipped depth <= 1 never panics, for every hash value), location_inj (equal "
              "locations imply equal hash values: injective modulo hash collisions), distinct_names_distinct_paths (separator-free "
              "triples have distinct canonical paths), holds_repaired (full statement once start is clamped and '/' rejected); closed "
-             "witnesses deep_layout_panics, short_hash_witness, canon_collision; classify_sound ties the decision to the facts."),
+             "witnesses deep_layout_panics, short_hash_witness, canon_collision; classify_sound ties the decision to the facts. "
+             "End to end (Hv/Misc/Stack.lean, a model of what the server does: folder = f(name, request.IslandID), open swamps keyed by name): "
+             "sdk_requests_one_folder (requests of SDK clients sharing N — each RPC carries GetIslandID(N) — keep every name under its "
+             "hash-derived island only), checked_requests_one_folder (a server that validated the island would do so for ANY requests), "
+             "unchecked_two_swamps / same_name_two_islands (the server as it is does not)."),
     "note": ("Trusted: Lean kernel (propext, Classical.choice, Quot.sound); extract/c20.go; harness/c20.go; the Lean xxhash64 is used only "
              "by the driver and is differential-tested against cespare/xxhash on every run (no theorem depends on it). Injectivity of "
              "locations is modulo collisions of the 64-bit hash (pigeonhole makes the literal statement false for any hash). Routing: all "
              "configured servers are assumed reachable; the real client is exercised over loopback TLS stub servers. Per-object caches: idempotent for a fixed N; a different N on the same "
              "name object returns the cached island (finding C20-island-cache-stale). N = 0 is excluded from every claim: both packages "
-             "panic with an integer divide by zero (theorem island_zero_panics, confirmed by op `n ... 0 ...`)."),
+             "panic with an integer divide by zero (theorem island_zero_panics, confirmed by op `n ... 0 ...`). "
+             "Glue: the facts rpcIslandFromName (all 60 IslandID literals of the SDK), serverPathPerRequest (hydra.go), gatewayThreeParts and "
+             "serverChecksIsland are structural (anything unrecognised = undetermined); ops `srv` (raw requests through the real gateway, "
+             "folders listed on disk) and `wire` (all 60 name-carrying SDK methods called through reflection against a recording gRPC server) "
+             "compare the running code with the model. GetFolderNumber (srvIsland) is dead code on the server: its agreement with the SDK is "
+             "proved and tested but nothing depends on it."),
     "design_ref": "§8 C20",
 }
 
@@ -39,6 +48,10 @@ FINDINGS = {
                             "folders-per-level: asked for island 1 and then island 2 it still answers /r/1/…",
     "C20-island-cache-stale": "GetIslandID / GetFolderNumber memoise the first island on the name object and return it for ANY later island "
                               "count: users/profiles/alice answers 956 for N=1000 and still 956 when asked for N=5",
+    "C20-island-unvalidated": "the server derives nothing from the name: the folder is GetFullHashPath(root, request.IslandID, …) and no handler compares "
+                              "request.IslandID with the name (GetFolderNumber has no caller under app/): the same name written with IslandID 956 "
+                              "and, once the swamp has closed, with IslandID 7 is two swamps with separate data (documented in the .proto: "
+                              "\"the server simply accepts the IslandID\")",
     "C20-island-off-by-one": "island number is 0-based, out of 1..N, or differs between SDK and server",
     "C20-default-config-panics": "the shipped depth / folders-per-level lets a crafted swamp name panic the path computation",
 }
@@ -52,6 +65,8 @@ def oracle(rep):
     """Spec oracle on the implementation's replies only."""
     for op, line in zip(rep["ops"], rep["impl"]):
         f = op.split(" ")
+        if line.startswith("timeout"):
+            continue   # the rig did not answer in time (load): common.py re-runs such a case alone with a larger budget
         if f[0] == "n":
             kv = _kv(line)
             N, depth = int(f[4]), int(f[5])
@@ -95,6 +110,36 @@ def oracle(rep):
                 bad = [i for i, v in cover.items() if len(v) != 1][0]
                 return ("C20-routing-unvalidated", "client accepted ranges %s for %d islands: island %d is covered by %d entries and routed to %s"
                         % (f[2], N, bad, len(cover[bad]), got.get(str(bad))))
+        elif f[0] == "srv":
+            if line.startswith("err rig"):
+                continue
+            kv = _kv(line)
+            i1, i2 = int(f[4]), int(f[5])
+            isl = lambda p: int(p.split("/")[2])
+            tail = lambda p: p.split("/", 3)[3]
+            p1, p2, p3 = ([] if kv.get(k, "-") == "-" else kv[k].split(",") for k in ("p1", "p2", "p3"))
+            if kv.get("set1") != "ok" or len(p1) != 1 or isl(p1[0]) != i1:
+                return (None, "a write with IslandID %d did not create exactly one swamp folder under island %d (`%s` -> %s)" % (i1, i1, op, line))
+            if kv.get("ex2") != str(i1 == i2).lower():
+                return (None, "IsSwampExist with IslandID %d answers %s while the only folder of the name is under island %d (`%s` -> %s)"
+                        % (i2, kv.get("ex2"), i1, op, line))
+            if kv.get("four") != "refused" or p3 != p2:
+                return (None, "a four-part swamp name was not refused by the gateway (`%s` -> %s)" % (op, line))
+            if kv.get("ex3") != "false":
+                return (None, "IsSwampExist under a third island answers %s (`%s` -> %s)" % (kv.get("ex3"), op, line))
+            if kv.get("set2") == "ok":
+                if sorted(isl(p) for p in p2) != sorted({i1, i2}) or len({tail(p) for p in p2}) != 1:
+                    return (None, "after writes with IslandID %d and %d the folders are %s (`%s`)" % (i1, i2, kv.get("p2"), op))
+                if i1 != i2:
+                    return ("C20-island-unvalidated", "one name written with IslandID %d and with IslandID %d: two swamp folders %s (`%s`)"
+                            % (i1, i2, kv.get("p2"), op))
+        elif f[0] == "wire":
+            kv = _kv(line)
+            N = int(f[4])
+            if kv.get("reached") != "ok":
+                return (None, "only %s SDK methods got a request onto the wire: the wire check is not evidence (`%s`)" % (kv.get("reached"), op))
+            if not kv.get("islands", "").isdigit() or not (1 <= int(kv["islands"]) <= N):
+                return (None, "the SDK's RPCs carry the IslandIDs {%s} for ONE name and %d islands (`%s`)" % (kv.get("islands"), N, op))
         elif f[0] == "pair":
             unhex = lambda h: b"" if h == "-" else bytes.fromhex(h)
             if f[1:4] != f[4:7] and line.endswith(" same") and b"/".join(map(unhex, f[1:4])) != b"/".join(map(unhex, f[4:7])):
@@ -132,7 +177,7 @@ def run(ctx):
                               {"correspondence": "C20", "drv_args": corrs[0][1], "ops": [op], "impl": [line],
                                "model": [c.model[i] if i < len(c.model) else "<missing>"]}, tag=fid or "impl")
                 break
-    U.leancheck(ctx, ["Hv.Props.C20", "Hv.Misc.NameLemmas", "Hv.Misc.Name", "Hv.Misc.NameBase"])
+    U.leancheck(ctx, ["Hv.Props.C20", "Hv.Misc.Stack", "Hv.Misc.NameLemmas", "Hv.Misc.Name", "Hv.Misc.NameBase"])
     panics = sum(1 for l in c.impl if "path=panic" in l)
     short = sum(1 for l in c.impl if l.startswith("sdk=") and "path=/r/" in l and len(l.split("path=")[1].split(" ")[0].rsplit("/", 1)[1]) < 16)
     return K.finish(
